@@ -89,8 +89,8 @@ def nt_long(tr):
 
 
 reg("C01", exc_ops=WRITE_OPS, nontrivial=nt_pages,
-    weights={"AddPage": 25, "AddPages": 14, "AddLinks": 14, "IndexBatchCrawl": 16},
-    profile={"longfirst": 0.45, "mutual": 0.3}, n=(150, 1500),
+    weights={"AddPage": 25, "AddPages": 14, "AddLinks": 14, "IndexBatchCrawl": 16, "AddRule": 9},
+    profile={"longfirst": 0.45, "mutual": 0.3, "text": 0.3}, n=(150, 1500),
     title="Page set fidelity")
 reg("C02", exc_ops=ALL_OPS, nontrivial=nt_pages, hook="lookup", mc=[("core", 4, 5), ("bst", 5, 6)],
     gen_mc=("core", "bst"),
@@ -119,8 +119,8 @@ reg("C07", exc_ops=set(), nontrivial=nt_links, hook="network", obs_fail=False,
     profile={"raw": 0.0, "long": 0.1, "nlrus": 12, "bigids": 0.65, "prefixlinks": 0.3, "siblinks": 0.25},
     title="Webentity network")
 reg("C08", exc_ops=set(), nontrivial=nt_links, hook="welinks", obs_fail=False,
-    weights={"AddLinks": 24, "IndexBatchCrawl": 16, "CreateWe": 10, "AddPrefix": 6, "RemovePrefix": 5, "DeleteWe": 5},
-    profile={"raw": 0.0, "long": 0.1, "nlrus": 12, "homelinks": 0.3, "prefixlinks": 0.4, "siblinks": 0.3}, n=(130, 1000), steps=(14, 20),
+    weights={"AddLinks": 24, "IndexBatchCrawl": 16, "CreateWe": 10, "AddPrefix": 10, "RemovePrefix": 5, "DeleteWe": 5},
+    profile={"raw": 0.0, "long": 0.1, "nlrus": 12, "homelinks": 0.3, "prefixlinks": 0.4, "siblinks": 0.3, "bigids": 0.5}, n=(130, 1000), steps=(14, 20),
     title="Per-webentity link queries")
 def token_rows(seed, only=None):
     """Rows for spec/TokenRows.tla: the real token helpers on every path of up to 6 moves, on long random
